@@ -59,6 +59,12 @@ def _n(t, env, wide):
     if k == "after" and is_call(t[1], "core::slice::<impl [T]>::swap") and t[2] == 0:
         c = t[1]
         return ("swap", _n(t[3], env, wide), _n(c[2][1], env, wide), _n(c[2][2], env, wide))
+    if k == "upd":
+        e = t[2]
+        if e[0] == "i":
+            return ("upd", _n(t[1], env, wide), _n(e[1], env, wide), _n(t[3], env, wide))
+        if e[0] == "ci" and not e[2]:
+            return ("upd", _n(t[1], env, wide), ("int", e[1]), _n(t[3], env, wide))
     if k == "agg" and t[1] == "array":
         return ("arr", tuple(_n(x, env, wide) for x in t[4]))
     if k == "field":
